@@ -40,6 +40,10 @@ CHECKS = {
                      'eval_job_insertion_in_route at every concrete position, in exhaustive Any mode and through a real recreate step; TLC decides soundness (success => simulation feasible, single and pair jobs), completeness and returned position for single-task jobs. '
                      'MCInsertion model-checks that the decision taken from the cached summaries equals brute-force simulation on every tour reachable by guarded insertions / removals.',
                 note='trusted: TLC; the harness places activities directly and refreshes state through goal.accept_route_state. Constraints covered: time windows, shift end, one capacity dimension (as the statement lists); reload intervals are not in the worlds.'),
+    'C07': dict(category='model_checking', design_ref='DESIGN.md section 6 C07', technique='trace validation of interrupted solver runs against Solver.tla (TLC) + VrpModel oracle on the returned solutions',
+                text='For each generated problem the solver is run with a counting quota that turns true at its k-th poll (every k up to 40, then a stride, up to the number of polls of a free run), with the termination criterion firing at its j-th check, '
+                     'and with the real 1 s time limit behind a 1.1 s pre-processing step. Every run must return Ok; its recorded sequence of quota polls / termination checks must be a behaviour of the control-loop model Solver.tla (whose invariants - a solution is returned, generations bounded, no generation after the guard saw the stop - are model-checked exhaustively), and the returned solution must satisfy the C01-C03 definitions of VrpModel.',
+                note='trusted: TLC; runs are single threaded so that event order = call order (multi-threaded layouts are exercised by C01/C15 without trace validation); poll points are not labelled by kind (hook H2 not built), the model distinguishes them by position.'),
     'C20': dict(category='model_checking', design_ref='DESIGN.md section 6 C20', technique='TLC-enumerated cases replayed into the evaluator, quotes and realised fitness change judged by Insertion.tla',
                 text='Same exhaustive enumeration as C06 under two goals ([unassigned, tours, distance] and [value, unassigned, cost]): the quoted cost vector of the chosen insertion is compared layer by layer with the model value of the objective change and with the fitness change the code measures after really inserting; cost layer only where the model finds no waiting before and after.',
                 note='trusted: TLC; integer worlds (all quotes are integers, compared exactly at 1/1000); time-independent routing; no conditional jobs (the ignored-jobs special case of the unassigned objective is outside the domain, see DESIGN).'),
